@@ -43,6 +43,9 @@ type NetflowV9 struct {
 	stop    uint32
 	stats   NetflowV9Stats
 	pool    chan chan struct{}
+
+	// closed by run() once the template cache has been loaded
+	cacheLoaded chan struct{}
 }
 
 // NetflowV9UDPMsg represents netflow v9 UDP data
@@ -81,6 +84,8 @@ func NewNetflowV9() *NetflowV9 {
 		port:    opts.NetflowV9Port,
 		addr:    opts.NetflowV9Addr,
 		workers: opts.NetflowV9Workers,
+
+		cacheLoaded: make(chan struct{}),
 	}
 }
 
@@ -113,6 +118,7 @@ func (i *NetflowV9) run() {
 	logger.Printf("netflow v9 is running (UDP: listening on [::]:%d workers#: %d)", i.port, i.workers)
 
 	mCacheNF9 = netflow9.GetCache(opts.NetflowV9TplCacheFile)
+	close(i.cacheLoaded)
 
 	go func() {
 		if !opts.ProducerEnabled {
@@ -168,9 +174,14 @@ func (i *NetflowV9) shutdown() {
 	logger.Println("stopping netflow v9 service gracefully ...")
 	time.Sleep(1 * time.Second)
 
-	// dump the templates to storage
-	if err := mCacheNF9.Dump(opts.NetflowV9TplCacheFile); err != nil {
-		logger.Println("couldn't not dump template", err)
+	// dump the templates to storage, unless the signal came before they were
+	// even loaded: the file on disk is then still the one to keep
+	select {
+	case <-i.cacheLoaded:
+		if err := mCacheNF9.Dump(opts.NetflowV9TplCacheFile); err != nil {
+			logger.Println("couldn't not dump template", err)
+		}
+	default:
 	}
 
 	// logging
